@@ -468,6 +468,11 @@ func c16Run(out *verifkit.Out, p *c16Params) {
 		out.Fail("request-loop "+key, c.runaway)
 		cancelled = true // what was delivered before the abort is still checked for duplicates, range and payload
 	}
+	if p.cont && runErr == nil && !stopped && !cancelled && c.runaway == "" && !timedOut {
+		// a continuous scan only ends when it is stopped or its context is cancelled; returning on its own means everything the log
+		// publishes from now on is never delivered
+		out.Fail("early-return "+key, fmt.Sprintf("continuous Run/ScanLog returned nil at %v without Stop or cancellation (%d entries delivered, log grows to %d)", retT, len(c.delivered)+len(c.callbacks), c.maxSize))
+	}
 	if c.lateSTH > 0 {
 		// Run has returned to its caller while the goroutine it started (genRanges → updateSTH) was still talking to the log;
 		// that goroutine then writes f.sth and f.opts.EndIndex, which the caller (ScanLog's return value) reads: a data race
@@ -669,6 +674,15 @@ func c16Gen(r *verifkit.Rand, it int) *c16Params {
 	default:
 		p.end = 0
 	}
+	if r.Intn(12) == 0 && p.size0 > 2 {
+		// an explicit empty range [s,s) or inverted range [s,e) with e < s, s ≠ 0: nothing is to be delivered
+		p.start = 1 + r.I64n(p.size0-1)
+		if r.Bool() {
+			p.end = p.start
+		} else {
+			p.end = 1 + r.I64n(p.start)
+		}
+	}
 	p.errPct = c16Pick(r, 0, 0, 10, 30)
 	p.emptyPct = c16Pick(r, 0, 0, 0, 10, 30)
 	p.shortPct = c16Pick(r, 0, 30, 60, 100)
@@ -784,6 +798,11 @@ func TestVerifC16(t *testing.T) {
 		{id: "r1", target: -1, size0: 6, batch: 3, par: 1, nMatch: 1, seed: 25, failFrom: 3, cont: true, growth: []c16Growth{{30 * time.Second, 40}}, cancelAt: 10 * time.Minute},
 		{id: "e0", target: -1, size0: 6, batch: 2, par: 1, nMatch: 1, seed: 26, emptyPct: 100},
 		{id: "e1", target: -1, scan: true, size0: 40, batch: 7, par: 3, nMatch: 2, seed: 27, emptyPct: 30, shortPct: 30, matcher: MatchAll{}, mName: "all"},
+		{id: "x0", target: -1, scan: true, size0: 10, start: 2, end: 2, batch: 3, par: 2, nMatch: 2, seed: 28, matcher: MatchAll{}, mName: "all"},
+		{id: "x1", target: -1, scan: true, size0: 10, start: 3, end: 1, batch: 3, par: 2, nMatch: 2, seed: 29, matcher: MatchAll{}, mName: "all"},
+		{id: "x2", target: -1, size0: 10, start: 3, end: 1, batch: 3, par: 2, nMatch: 1, seed: 30},
+		{id: "h0", target: -1, size0: 7, start: 7, batch: 3, par: 2, nMatch: 1, seed: 31, cont: true, growth: []c16Growth{{20 * time.Second, 12}, {2 * time.Minute, 30}}, stopAt: 30 * time.Minute},
+		{id: "h1", target: -1, scan: true, size0: 0, start: 0, batch: 5, par: 3, nMatch: 2, seed: 32, cont: true, growth: []c16Growth{{40 * time.Second, 9}}, stopAt: 30 * time.Minute, matcher: MatchAll{}, mName: "all"},
 		{id: "b8", target: -1, scan: true, size0: 90, batch: 1000, par: 1, nMatch: 3, buf: 1000, seed: 9, matcher: CertParseFailMatcher{}, mName: "parsefail", preOnly: true},
 	}
 	for _, p := range fixed {
